@@ -273,17 +273,30 @@ def shapes(ctx, obs, rule='SHAPE'):
         ff = prog.func(qq)
         rr = ctx.dep.result(qq)
         ii = Inliner(rr, None, ())
-        last = [n for n, _, _ in rr.returns if n is not None and n.value is not None][-1]
-        e = ii.inline(last.value)
-        ok = isinstance(e, ast.BinOp) and isinstance(e.op, ast.Div) and any(
-            isinstance(x, ast.Call) and _leaf(x.func) == 'sqrt' for x in ast.walk(e.right)) and any(
-            isinstance(x, ast.BinOp) and isinstance(x.op, ast.Pow) for x in ast.walk(e.right))
-        obs.check(ok, rule, qq, 'the normalised exit divides by sqrt(sum(theta ** 2))',
-                  f'final return `{ast.unparse(e)[:90]}` is not theta / sqrt(sum(theta**2))', '', where(prog, ff, last))
-        guards = [n for n in ast.walk(ff.node) if isinstance(n, ast.If) and any(isinstance(x, ast.Name) and x.id == 'normalize'
-                                                                                for x in ast.walk(n.test))]
-        obs.check(bool(guards), rule, qq, 'normalisation is controlled by the normalize flag', 'no test of `normalize`', '',
-                  where(prog, ff, ff.node))
+        rets_ = [n for n, _, _ in rr.returns if n is not None and n.value is not None]
+        last = rets_[-1]
+
+        def _alts(x):
+            if isinstance(x, ast.Call) and isinstance(x.func, ast.Name) and x.func.id == 'PHI':
+                return [z for a_ in x.args for z in _alts(a_)]
+            return [x]
+        alts = [a_ for n_ in rets_ for a_ in _alts(ii.inline(n_.value))]
+        divs = [a_ for a_ in alts if isinstance(a_, ast.BinOp) and isinstance(a_.op, ast.Div)]
+        good = [a_ for a_ in divs if any(isinstance(x, ast.Call) and _leaf(x.func) in ('sqrt', 'norm') for x in ast.walk(a_.right))
+                and (any(isinstance(x, ast.BinOp) and isinstance(x.op, ast.Pow) for x in ast.walk(a_.right))
+                     or any(isinstance(x, ast.Call) and _leaf(x.func) in ('norm', 'dot', 'einsum', 'inner') for x in ast.walk(a_.right)))]
+        con = 'the normalised exit divides by sqrt(sum(theta ** 2))'
+        if good:
+            obs.ok(rule, qq, con, '', where(prog, ff, last))
+        elif divs:
+            obs.bad(rule, qq, con, f'the normalising exit returns `{ast.unparse(divs[0])[:90]}`, which is not theta / sqrt(sum(theta**2)): '
+                    f'normalised fits do not have unit norm', where(prog, ff, last))
+        else:
+            obs.unk(rule, qq, con, 'no return alternative of the form theta / <norm> recognised', where(prog, ff, last))
+        guards = [n for n in ast.walk(ff.node) if isinstance(n, (ast.If, ast.IfExp)) and any(isinstance(x, ast.Name) and x.id == 'normalize'
+                                                                                           for x in ast.walk(n.test))]
+        obs.soft(bool(guards), rule, qq, 'normalisation is controlled by the normalize flag', 'no test of `normalize`', '',
+                 where(prog, ff, ff.node))
     # interpolation: (w, 1 - w) on adjacent indices, inside the closure and in the result
     q = F + 'fit_interpolate'
     f = prog.func(q)
